@@ -1,5 +1,6 @@
 use crate::{input::Input, intermediate::*};
 use nom::{
+    branch::alt,
     bytes::complete::tag,
     combinator::{map, opt},
     sequence::{pair, preceded},
@@ -29,13 +30,22 @@ pub fn set_of(input: Input<'_>) -> ParserResult<'_, ASN1Type> {
                 opt(opt_parentheses(constraints)),
             ),
             preceded(
-                skip_ws_and_comments(pair(tag(OF), opt(skip_ws_and_comments(value_reference)))),
-                skip_ws_and_comments(pair(opt(asn_tag), skip_ws_and_comments(asn1_type))),
+                skip_ws_and_comments(tag(OF)),
+                // `OF identifier Type` or `OF Type`; a selection type (`OF alt < Choice`) starts with an
+                // identifier that is not the name of the element
+                alt((
+                    preceded(skip_ws_and_comments(value_reference), element),
+                    element,
+                )),
             ),
         ),
         |m| ASN1Type::SetOf(m.into()),
     )
     .parse(input)
+}
+
+fn element(input: Input<'_>) -> ParserResult<'_, (Option<AsnTag>, ASN1Type)> {
+    skip_ws_and_comments(pair(opt(asn_tag), skip_ws_and_comments(asn1_type))).parse(input)
 }
 
 #[cfg(test)]
